@@ -5,6 +5,7 @@ open PgmVerif
 #print axioms PgmVerif.C18_closure_closed
 #print axioms PgmVerif.C18_ci_product_form
 #print axioms PgmVerif.C18_iequiv_refl_symm
+#print axioms PgmVerif.C18_iequiv_trans
 #print axioms PgmVerif.C18_closure_sound
 #print axioms PgmVerif.C18_closure_semantically_sound
 #print axioms PgmVerif.CI_decomposition
